@@ -10,7 +10,8 @@ from concurrent.futures import ThreadPoolExecutor
 V = "/verif"
 # which checks are expected to see a seeded defect (default: the seed's own property)
 ALSO = {"C15-2": ["C08"], "C13-2": ["C20"], "C18-2": ["C05", "C06"], "C12-2": ["C05"], "C07-1": ["C05"], "C02-2": ["C13"],
-        "C01-1": ["C04"], "C05-1": ["C12"]}
+        "C01-1": ["C04"], "C05-1": ["C12"], "C01-4": ["C11"], "C08-3": ["C09"], "C08-4": ["C20"], "C18-4": ["C20"],
+        "C07-5": ["C05"], "C12-5": ["C05"], "C04-3": ["C01"], "C06-1": ["C05"], "C14-5": ["C03"]}
 
 
 def run_seed(pid):
